@@ -45,7 +45,11 @@ func (fs LocalFileSystem) Open(ctx context.Context, name string) (io.ReadCloser,
 	if err != nil {
 		return nil, err
 	}
-	return os.Open(p)
+	f, err := os.Open(p)
+	if err != nil {
+		return nil, errFromOS(err)
+	}
+	return f, nil
 }
 
 func fileInfoFromOS(p string, fi os.FileInfo) *FileInfo {
@@ -66,10 +70,13 @@ func fileInfoFromOS(p string, fi os.FileInfo) *FileInfo {
 }
 
 func errFromOS(err error) error {
-	// Remove path from path errors so it's not returned to the user
+	// Remove paths from OS errors so they're not returned to the user
 	var perr *fs.PathError
+	var lerr *os.LinkError
 	if errors.As(err, &perr) {
 		err = fmt.Errorf("%s: %w", perr.Op, perr.Err)
+	} else if errors.As(err, &lerr) {
+		err = fmt.Errorf("%s: %w", lerr.Op, lerr.Err)
 	}
 
 	if errors.Is(err, fs.ErrNotExist) {
@@ -167,11 +174,11 @@ func (fs LocalFileSystem) Create(ctx context.Context, name string, body io.ReadC
 
 	if _, err := io.Copy(wc, body); err != nil {
 		os.Remove(p)
-		return nil, false, err
+		return nil, false, errFromOS(err)
 	}
 	if err := wc.Close(); err != nil {
 		os.Remove(p)
-		return nil, false, err
+		return nil, false, errFromOS(err)
 	}
 
 	fi, err = fs.Stat(ctx, name)
@@ -208,7 +215,7 @@ func (fs LocalFileSystem) Mkdir(ctx context.Context, name string) error {
 		return err
 	}
 	if err := os.Mkdir(p, 0755); os.IsExist(err) {
-		return NewHTTPError(http.StatusMethodNotAllowed, err)
+		return NewHTTPError(http.StatusMethodNotAllowed, errFromOS(err))
 	} else {
 		return errFromOS(err)
 	}
